@@ -897,3 +897,92 @@ def check_sibling_options(run, f, rule='R10c'):
                 run.holds(rule, f.key, '%s(.., %s=%s) at every call' % (nm.split('.')[-1], p, p),
                           '%d sibling calls all forward the option' % len(yes), f=f)
     return n
+
+
+# ---------------------------------------------------------------------------------------------------------------- R10m
+def check_none_belief(run, funcs, rule='R10m'):
+    """Contradiction rule.  A function that tests a None-default parameter p against None on some path believes that p can be
+    None.  Then a use of the argument p as a NUMBER or VECTOR -- an element of a list/tuple display, an operand of arithmetic, a
+    subscripted value -- needs the fact `p is not None` on every path to it (a dominating test, in whatever spelling, or the
+    failed `p is None` with an exit).  Passing p on as an argument is not such a use (the callee may accept None)."""
+    n = 0
+    for f in funcs:
+        dfl = f.defaults()
+        cand = [p for p, d in dfl.items() if isinstance(d, ast.Constant) and d.value is None and p != f.selfname]
+        if not cand:
+            continue
+        tested = set()
+        for x in own_walk(f.node):
+            if isinstance(x, ast.Compare) and len(x.ops) == 1 and isinstance(x.ops[0], (ast.Is, ast.IsNot)) and isinstance(x.left, ast.Name) \
+                    and x.left.id in cand and isinstance(x.comparators[0], ast.Constant) and x.comparators[0].value is None:
+                tested.add(x.left.id)
+        if not tested:
+            continue
+        cfg = CFG(f.node)
+        IN, OUT = reaching_defs(cfg, f.allparams)
+        facts = must_facts(cfg)
+        reach = cfg.reachable()
+        par = _parents(f.node)
+        for p in sorted(tested):
+            bad = None
+            uses = 0
+            for node in cfg.nodes:
+                if node.id not in reach or (p, cfg.entry.id) not in IN.get(node.id, frozenset()):
+                    continue
+                # only the argument itself: every reaching definition is the entry
+                if any(nm == p and d != cfg.entry.id for (nm, d) in IN.get(node.id, ())):
+                    continue
+                for h in header_expr(node):
+                    if h is None:
+                        continue
+                    for x in ast.walk(h):
+                        if not (isinstance(x, ast.Name) and x.id == p and isinstance(x.ctx, ast.Load)):
+                            continue
+                        pr = par.get(id(x))
+                        numeric = isinstance(pr, (ast.List, ast.Tuple)) and isinstance(getattr(pr, 'ctx', None), ast.Load) or \
+                            isinstance(pr, ast.BinOp) or (isinstance(pr, ast.Subscript) and pr.value is x) or isinstance(pr, ast.UnaryOp) and isinstance(pr.op, ast.USub)
+                        if not numeric:
+                            continue
+                        # short-circuit: `p is not None and ... p ...` inside one expression
+                        anc, child, sc = pr, x, False
+                        while anc is not None and not isinstance(anc, ast.stmt):
+                            if isinstance(anc, ast.BoolOp) and isinstance(anc.op, ast.And):
+                                idx = [i for i, v in enumerate(anc.values) if any(y is child for y in ast.walk(v))]
+                                if idx and any(ast.unparse(v) in ('%s is not None' % p,) for v in anc.values[:idx[0]]):
+                                    sc = True
+                            if isinstance(anc, ast.IfExp) and any(y is child for y in ast.walk(anc.body)) and ast.unparse(anc.test) == '%s is not None' % p:
+                                sc = True
+                            if isinstance(anc, ast.IfExp) and any(y is child for y in ast.walk(anc.orelse)) and ast.unparse(anc.test) == '%s is None' % p:
+                                sc = True
+                            child, anc = anc, par.get(id(anc))
+                        if sc:
+                            uses += 1
+                            continue
+                        uses += 1
+                        fs = facts.get(node.id, frozenset())
+                        known = False
+                        for fc in fs:
+                            t, pol = fc[2].ast, fc[1]
+                            if isinstance(t, ast.Compare) and len(t.ops) == 1 and isinstance(t.left, ast.Name) and t.left.id == p and \
+                                    isinstance(t.comparators[0], ast.Constant) and t.comparators[0].value is None:
+                                if isinstance(t.ops[0], ast.IsNot) and pol or isinstance(t.ops[0], ast.Is) and not pol:
+                                    known = True
+                            # isscalar(p) / isvector(p, ..) / len(p) facts: p is a value
+                            if pol and isinstance(t, ast.Call) and t.args and isinstance(t.args[0], ast.Name) and t.args[0].id == p:
+                                known = True
+                            if pol and any(isinstance(y, ast.Call) and isinstance(y.func, ast.Name) and y.func.id == 'len' and y.args and
+                                           isinstance(y.args[0], ast.Name) and y.args[0].id == p for y in ast.walk(t)) and not isinstance(t, ast.BoolOp):
+                                known = True          # len(p) == k holds: p is a sequence
+                        if not known and bad is None:
+                            bad = (x, pr)
+            if not uses:
+                continue
+            n += 1
+            if bad is not None:
+                x, pr = bad
+                run.violation(rule, f.key, 'None-default %s used as a value' % p, 'parameter %s defaults to None and is tested against None elsewhere in %s, '
+                              'but it is used as a number/vector in %s on a path where nothing has established `%s is not None`: a caller who leaves it out '
+                              'gets a None inside the value (or a TypeError) instead of the documented behaviour' % (p, f.name, src(pr, 50), p), f=f, node=x)
+            else:
+                run.holds(rule, f.key, 'None-default %s used as a value' % p, 'every use as a number/vector is under `%s is not None`' % p, f=f)
+    return n
